@@ -564,6 +564,7 @@ const ORDERS: &[&str] = &[
     "pairs_then_chain",
     "small_components_at_both_ends",
     "reset_to_large_sizes",
+    "absorb_after_deep_lookup",
 ];
 
 /// depth/size invariant through the hook against the big model, O(n alpha)
@@ -842,7 +843,8 @@ fn run_adversarial(order: &str, n: usize, seed: u64, rep: &mut Report) {
             }
             "reset_to_large_sizes" => {
                 // reset() is a constructor too: after it every element is its own component, whatever the size
-                for &n2 in &[n, n / 3 + 1, (1 << 18) + 1, n - n / 5, 300_000.min(n), n] {
+                // (the same size several times in a row: the rounds then repeat the same unions with the same roots)
+                for &n2 in &[n, n, n, n / 3 + 1, n / 3 + 1, (1 << 18) + 1, n - n / 5, 300_000.min(n), n, n] {
                     if n2 == 0 {
                         continue;
                     }
@@ -863,6 +865,85 @@ fn run_adversarial(order: &str, n: usize, seed: u64, rep: &mut Report) {
                     un!(n2 / 2, n2 - 1);
                 }
                 // the structure now has the size of the last reset: the final sweep below uses n
+            }
+            "absorb_after_deep_lookup" => {
+                // blocks built as binomial trees through their roots only (no compression: depth log2 of the block), the
+                // deepest element of a block looked up through the public API, then the block absorbed by a strictly larger
+                // one (in both argument orders over the blocks), then the same element looked up again: its
+                // representative must be the one every other member reports
+                let mut base = 0usize;
+                let mut round = 0usize;
+                while base + 96 <= n && round < 4000 {
+                    let k = 16 << (round % 2); // small block of 16 or 32 at base, large block of 2k at base + k
+                    if base + 3 * k > n {
+                        break;
+                    }
+                    for (lo, size) in [(base, k), (base + k, 2 * k)] {
+                        let mut width = 1;
+                        while width < size {
+                            let mut b = lo;
+                            while b + width < lo + size {
+                                let p = dsu.verif_parents();
+                                let (mut x, mut y) = (b, b + width);
+                                while p[x] != x {
+                                    x = p[x];
+                                }
+                                while p[y] != y {
+                                    y = p[y];
+                                }
+                                un!(x, y);
+                                b += 2 * width;
+                            }
+                            width *= 2;
+                        }
+                    }
+                    // deepest element of the small block
+                    let p = dsu.verif_parents();
+                    let mut best = (0usize, base);
+                    for s in base..base + k {
+                        let (mut x, mut d) = (s, 0usize);
+                        while p[x] != x {
+                            x = p[x];
+                            d += 1;
+                        }
+                        if d > best.0 {
+                            best = (d, s);
+                        }
+                    }
+                    let deep = best.1;
+                    let r0 = lib!(dsu.par(deep));
+                    if m.find(r0) != m.find(deep) {
+                        cx.violation("par_not_member", Json::obj().set("v", deep).set("got", r0));
+                        return;
+                    }
+                    // absorb: the larger block as first or as second argument, through roots or through inner elements
+                    let (sa, sb) = match round % 4 {
+                        0 => (base + k, r0),
+                        1 => (r0, base + k),
+                        2 => (base + k + 1, deep),
+                        _ => (base + 1, base + 2 * k),
+                    };
+                    un!(sa, sb);
+                    let r1 = lib!(dsu.par(deep));
+                    let other = lib!(dsu.par(base + k + 3));
+                    let mine = lib!(dsu.par(base + 1));
+                    cx.rep.count("par_checked", 4);
+                    if r1 != other || r1 != mine || m.find(r1) != m.find(deep) || !lib!(dsu.check(deep, base + 2 * k)) {
+                        cx.violation(
+                            "par_unstable",
+                            Json::obj()
+                                .set("what", "after its component was absorbed by a larger one, an element that had been looked up before reports another representative than the other members")
+                                .set("v", deep)
+                                .set("par_v", r1)
+                                .set("par_of_member_of_larger_block", other)
+                                .set("par_of_member_of_own_block", mine)
+                                .set("depth_before_first_lookup", best.0),
+                        );
+                        return;
+                    }
+                    base += 3 * k;
+                    round += 1;
+                }
             }
             _ => panic!("unknown order {}", order),
         }
